@@ -61,7 +61,9 @@ fn params(c: &mut Cur) -> PResult<Vec<OField>> {
         }
         let mut f = OField::default();
         f.line = c.line();
-        c.eat_id("val");
+        if c.is_id("val") && !c.is_p_at(1, ":") {
+            c.next();
+        }
         let id = c.ident()?;
         f.ident = id.text.clone();
         f.escaped = id.escaped;
